@@ -226,8 +226,9 @@ func vhHasLower(rules Rules) bool {
 	return false
 }
 
-func vhC04(rules Rules) {
-	in := vhInput()
+func vhC04(rules Rules) { vhC04In(rules, vhInput()) }
+
+func vhC04In(rules Rules, in string) {
 	_, toks, err := vhRunImpl(rules, in)
 	if err != nil {
 		vReach("error")
@@ -260,6 +261,13 @@ func vhC04(rules Rules) {
 
 // vhC07Run: whole-run obligations from the initial state.
 func vhC07Run(rules Rules) { vhC07RunIn(rules, vhInput()) }
+
+// a long unlexable remainder followed by arbitrary bytes (the error message
+// quotes a bounded sample of the remaining input)
+func VH_C07_Run_LongError() {
+	prefix := "?????????????????"[:13+vChoose("prefix", 5)]
+	vhC07RunIn(vhDefLiteral(), prefix+vhInput())
+}
 
 func VH_C07_Run_Generated() {
 	rules, in, ok := vhGenPick()
@@ -389,6 +397,26 @@ func VH_C03_ElidedActions() { vhC03(vhDefElidedActions()) }
 
 func VH_C03_NullableStar() { vhC03(vhDefNullableStar()) }
 
+// a state entered twice in one input by parent matches that differ only in
+// their whole text: \0 must follow the entering match each time
+func vhDefFence() Rules {
+	return Rules{
+		"Root": {{"Fence", `<+`, Push("F")}, {"Other", `a`, nil}},
+		"F":    {{"End", `\0`, Pop()}, {"Any", `[<a]`, nil}},
+	}
+}
+
+const vhFenceInput = 7 // @tier quick=7 thorough=9
+
+func VH_C03_BackrefZero() {
+	n := vChoose("len", vhFenceInput+1)
+	in := vString("in", n)
+	for i := 0; i < n; i++ {
+		vAssume(vOr(in[i] == '<', in[i] == 'a'))
+	}
+	vhC03In(vhDefFence(), in)
+}
+
 // generated definitions (zz_verif_lexgen.go)
 const vhGenLexDefs = 100 // @tier quick=100 thorough=400
 
@@ -437,6 +465,18 @@ func VH_C04_Anchors()       { vhC04(vhDefAnchors()) }
 func VH_C04_PushPop()       { vhC04(vhDefPushPop()) }
 func VH_C04_String()        { vhC04(vhDefString()) }
 func VH_C04_IncludeNested() { vhC04(vhDefIncludeNested()) }
+func VH_C04_DotAll()        { vhC04(vhDefDotAll()) }
+func VH_C04_NegClass()      { vhC04(vhDefNegClass()) }
+func VH_C04_ElidedActions() { vhC04(vhDefElidedActions()) }
+
+func VH_C04_Generated() {
+	rules, in, ok := vhGenPick()
+	if !ok {
+		vReach("rejected")
+		return
+	}
+	vhC04In(rules, in)
+}
 
 // VH_C04_Advance: Position.Advance alone, for an arbitrary start position
 // and an arbitrary span: offset, line and column follow the specification.
